@@ -103,8 +103,14 @@ func vrfKnown(key string, c bool) {}
 // vrfEager asks the executor to prune infeasible branches with the solver inside the named callee.
 func vrfEager(callee string) {}
 
-// vrfMapOrder switches range-over-map to a symbolic permutation of the candidates.
-func vrfMapOrder(nondet bool) {}
+// vrfMapOrder(label): from here on every range over a map (and every reflect.MapIter) visits the live entries in a
+// SYMBOLIC permutation (fresh permutation variables named after label); "" switches back to the fixed order.
+// Natively a no-op: the Go runtime randomises map iteration by itself.
+func vrfMapOrder(label string) {}
+
+// vrfTrials: how many times an order-sensitivity harness repeats the unit: 2 symbolically (two independent symbolic
+// permutations cover every pair of orders), many natively (the runtime draws a random order each time).
+func vrfTrials() int { return 64 }
 
 // vrfFreeze / vrfThaw: write monitor on every heap object existing at the freeze (symbolic only).
 func vrfFreeze() {}
